@@ -292,6 +292,8 @@ def gen_program(rng, n_meas=None, n_ops=None, rational_only=False, allow_pairs=T
     n_ops = n_ops or rng.randrange(1, 9)
     steps, vals, kinds = [], [], []      # vals: float value of each object id
     hidden = set()                       # intermediate results the harness holds no reference to
+    scaled = set()                       # objects built with a 2^+-30 scale factor (and what is built on them): they are kept
+    #                                      out of the transcendental functions (sin(2^30 x) cannot be judged by differences)
     small_scale = rng.random() < 0.12    # every uncertainty of the program far below any absolute tolerance (1e-8 ...)
     for _ in range(n_meas):
         v = dyadic(rng, -3, 8)
@@ -331,7 +333,7 @@ def gen_program(rng, n_meas=None, n_ops=None, rational_only=False, allow_pairs=T
             fn = rng.choice(["sin", "cos", "tan", "sec", "csc", "cot"])
             i = pick_obj()
             arg = vals[i] / 180 * math.pi
-            if abs(vals[i]) > 720 or not in_domain_un(fn, arg):
+            if i in scaled or abs(vals[i]) > 720 or not in_domain_un(fn, arg):
                 continue
             steps.append(["deg", fn, ["obj", i]])
             hidden.update([len(vals), len(vals) + 1])
@@ -342,7 +344,7 @@ def gen_program(rng, n_meas=None, n_ops=None, rational_only=False, allow_pairs=T
         if r < (0.25 if rational_only else 0.45):
             op = "neg" if rational_only or rng.random() < 0.15 else rng.choice(UN_FUNCS)
             i = pick_obj()
-            if not in_domain_un(op, vals[i]):
+            if not in_domain_un(op, vals[i]) or (i in scaled and op != "neg"):
                 continue
             try:
                 nv = py_un(op, vals[i])
@@ -351,6 +353,8 @@ def gen_program(rng, n_meas=None, n_ops=None, rational_only=False, allow_pairs=T
             if not (abs(nv) < 2 ** 16):
                 continue
             steps.append(["un", op, ["obj", i]])
+            if i in scaled:
+                scaled.add(len(vals))
             vals.append(nv)
             kinds.append("der")
             made += 1
@@ -403,11 +407,15 @@ def gen_program(rng, n_meas=None, n_ops=None, rational_only=False, allow_pairs=T
             continue
         if isinstance(nv, complex) or not (abs(nv) < 2 ** 48) or (nv != 0 and abs(nv) < 2 ** -70):
             continue
+        if op in ("pow", "log2") and any(r[0] == "obj" and r[1] in scaled for r in (ra, rb)):
+            continue
         steps.append(["bin", op, ra, rb])
         for ref in (ra, rb):
             if ref[0] == "pair":
                 vals.append(ref[1])
                 kinds.append("meas")
+        if any((r[0] == "obj" and r[1] in scaled) or (r[0] == "const" and not (2.0 ** -20 < abs(r[1]) < 2.0 ** 20)) for r in (ra, rb)):
+            scaled.add(len(vals))
         vals.append(nv)
         kinds.append("der")
         made += 1
@@ -427,6 +435,8 @@ def gen_program(rng, n_meas=None, n_ops=None, rational_only=False, allow_pairs=T
                     vals.append(cv)
                     kinds.append("der")
                     made += 2
+                    if i in scaled or j in scaled:
+                        scaled.update([first + 1, first + 2])
             except (ValueError, ZeroDivisionError, OverflowError):
                 pass
         if rng.random() < 0.2:
@@ -643,10 +653,19 @@ def apply_change_impl(w, ch):
 
 
 def fd_derivative(model, k, m):
-    """Ridders' extrapolated central differences of object k with respect to measurement m;
-    returns (estimate, error estimate)"""
+    """Ridders' extrapolated central differences of object k with respect to measurement m; returns (estimate, error
+    estimate).  Two independent runs with start steps a factor 1024 apart must agree, otherwise the estimate is declared
+    inconclusive (a formula that oscillates faster than the step, e.g. sin(2^30 x), fools a single run)"""
+    a1, e1 = _ridders(model, k, m, 2.0 ** -6)
+    a2, e2 = _ridders(model, k, m, 2.0 ** -16)
+    if not abs(a1 - a2) <= 1e-4 * (abs(a1) + abs(a2)) + 1e-12:
+        return a1, float("inf")
+    return (a1, e1) if e1 <= e2 else (a2, e2)
+
+
+def _ridders(model, k, m, h0):
     v = model[m][1]
-    h = max(abs(v) / 8, 1.0) * 2.0 ** -6
+    h = max(abs(v) / 8, 1.0) * h0
     con, safe, ntab = 1.4, 2.0, 10
 
     def f(x):
@@ -683,9 +702,31 @@ def reachable_measurements(model, k):
     return sorted(seen)
 
 
+def unresolvable(model, k):
+    """object k (or something it is built from) applies a transcendental function / variable power to a quantity that
+    carries a 2^+-20.. scale factor: finite differences cannot resolve such a formula (sin(2^30 x)), the oracle abstains"""
+    scaled, bad = set(), set()
+    for j, m in enumerate(model[:k + 1]):
+        if m[0] == "meas":
+            continue
+        refs = [r for r in m[2:] if isinstance(r, (list, tuple))]
+        sc = any((r[0] == "obj" and r[1] in scaled) or (r[0] == "const" and r[1] != 0 and not (2.0 ** -20 < abs(r[1]) < 2.0 ** 20))
+                 for r in refs)
+        if sc:
+            scaled.add(j)
+        if any(r[0] == "obj" and r[1] in bad for r in refs):
+            bad.add(j)
+        if (m[0] == "un" and m[1] != "neg" or m[0] == "bin" and m[1] in ("pow", "log2")) and \
+                any(r[0] == "obj" and r[1] in scaled for r in refs):
+            bad.add(j)
+    return k in bad
+
+
 def oracle_object(model, corr, obs, derivs_only=False):
     """check one observed derived object against the property text; returns None or a description"""
     k = obs["id"]
+    if unresolvable(model, k):
+        return None
     try:
         f0 = interp(model, k)[k]
     except (ValueError, ZeroDivisionError, OverflowError):
